@@ -200,6 +200,22 @@ theorem memo_stable_over_wire {H : Type} (hash : Bytes → H) (s : Schema) (m m'
     hash (encode s m') = hash (encode s m) := by
   rw [encode_canonical s m m' d hc hd h]
 
+/-- identifiers are functions of the decoded VALUE: two byte strings (canonical or not: explicit defaults, over-long
+varints, …) that decode to messages with the same normal form yield the same identifier `hash (encode …)`, and the
+re-encoding of either is the one canonical byte string.  A hash taken over the bytes an object ARRIVED in is not
+such a function (the harness family "non-canonical encodings" feeds the real decoders with them). -/
+theorem ident_function_of_value {H : Type} (hash : Bytes → H) (s : Schema) (b₁ b₂ : Bytes) (m₁ m₂ : Msg) (d : Nat)
+    (_h₁ : decode d s b₁ = some m₁) (_h₂ : decode d s b₂ = some m₂) (e : normMsg s m₁ = normMsg s m₂) :
+    encode s m₁ = encode s m₂ ∧ hash (encode s m₁) = hash (encode s m₂) := by
+  have : encode s m₁ = encode s m₂ := by unfold encode; rw [e]
+  exact ⟨this, by rw [this]⟩
+
+/-- decoding is not injective: the explicit default `18 00` (`useRlp = false`) after a transaction's canonical bytes
+decodes to a message with the same normal form, and so do over-long varints -/
+example : ∃ b₁ b₂ m₁ m₂, b₁ ≠ b₂ ∧ decode 2 txSchema b₁ = some m₁ ∧ decode 2 txSchema b₂ = some m₂ ∧
+    normMsg txSchema m₁ = normMsg txSchema m₂ :=
+  ⟨[18, 1, 7], [18, 1, 7, 24, 0], [(2, .bytes [7])], [(2, .bytes [7]), (3, .int 0)], by decide, by rfl, by rfl, by rfl⟩
+
 /-- `types.SignTx` (transaction_signing.go:13-30): a fresh object, the eight data fields copied, new signature,
 `UseRlp` not carried over, no memo -/
 def signTxModel (t : TxFull) (sig : Bytes) : TxFull := ⟨t.data, sig, false⟩
